@@ -240,6 +240,8 @@ class Interp:
             if m is not None and not getattr(m.cls, "external", False):
                 if m.is_property():
                     return self.call_function(Closure(m, self_v=ov, cls=m.cls), [], {}, st, node)
+                if m.is_static():
+                    return V("func", T("fn", m.qualname), func=Closure(m, cls=m.cls))  # no receiver is bound
                 return V("func", T("method", ov.term, name), func=Closure(m, self_v=ov, cls=m.cls))
             for c in o.cls.mro():
                 if not getattr(c, "external", False) and name in c.class_attrs:
